@@ -428,6 +428,10 @@ def _load():
         Misc.bootstraps_from_dd_chunks(Misc.fragment_data_dict(dd, chunk), nboot, pop_ids, proj, polarized=polarized), seed_rng=99, group='datadict')
     reg('LP.lowpass_call', _lowpass_call, group='lowpass')
     reg('LP.compute_cov_dist', _cov_dist, group='lowpass')
+    reg('mk_genotypes', lambda seed, nloci, nind: np.where(np.random.RandomState(seed).random_sample((nloci, nind)) < 0.15, 99,
+                                                           np.random.RandomState(seed + 1).randint(0, 3, size=(nloci, nind))), group='make')
+    reg('LP.subsample_genotypes', lambda g, n: __import__('dadi.LowPass.LowPass', fromlist=['x']).subsample_genotypes_1D(g, n).shape,
+        no_compare=True, group='lowpass')     # draws from an unseedable module-level generator: only its arguments are watched
     reg('LP.lowpass_from_dd', _lowpass_from_dd, group='lowpass')
     reg('optimize_grid', _optimize_grid, group='opthelp')
     reg('nlopt_opt', _nlopt_opt, group='opthelp')
